@@ -621,7 +621,13 @@ pub fn check_number_bounds(num: &NumberSchema) -> Result<(), String> {
         }
         // If interval is not unbounded in at least one direction, check if the range contains a multiple of multipleOf
         if let (Some(min), Some(max)) = (minimum, maximum) {
-            let step = d.to_f64();
+            // the integers that are multiples of coef / 10^exp are the multiples of
+            // coef / gcd(coef, 10^exp): stepping by the fraction itself can land on
+            // non-integer multiples only (e.g. 0.8 in [9, 11]: 9.6 and 10.4)
+            let step = match 10u32.checked_pow(d.exp) {
+                Some(p) if num.integer => (d.coef / gcd(d.coef, p)) as f64,
+                _ => d.to_f64(),
+            };
             // Adjust the range depending on whether it's exclusive or not
             let min = {
                 let first_num_ge_min = (min / step).ceil() * step;
